@@ -2,7 +2,7 @@
    canonicalisation (shift), and the reader / from_slice outcome functions. *)
 From EP Require Import Base.Bytes Parse.Types Parse.Slices Parse.Cursor Parse.View
   Parse.HdrModel Parse.HdrView Parse.LaxSlices Parse.HdrLaxModel Equiv.Model Equiv.ModelRead
-  Equiv.ModelLaxIp Equiv.HdrLaxShift Equiv.SllStart.
+  Equiv.ModelLaxIp Equiv.HdrLaxShift Equiv.SllStart Parse.Ipv6SliceLax.
 From Coq Require Import Extraction ExtrOcamlBasic.
 Extraction Language OCaml.
 Extraction "m_c06.ml"
@@ -19,4 +19,6 @@ Extraction "m_c06.ml"
   LaxPacketHeaders.from_ethernet LaxPacketHeaders.from_ether_type LaxPacketHeaders.from_ip
   LaxPacketHeaders.from_linux_sll lh_behind sll_head
   LaxIpHeaders.from_slice_lax LaxIpHeadersSpecific.from_ipv4_slice_lax
-  LaxIpHeadersSpecific.from_ipv6_slice_lax.
+  LaxIpHeadersSpecific.from_ipv6_slice_lax
+  (* round 3 (v6lax): the 13th copy of the IP boundary, Ipv6Slice::from_slice_lax *)
+  Ipv6SliceLax.from_slice_lax.
